@@ -214,3 +214,43 @@ func EthTx(evmChainID *big.Int, priv cryptotypes.PrivKey, a EthTxArgs) ([]byte, 
 	bz, err := cfg.TxEncoder()(b.GetTx())
 	return bz, msg.AsTransaction().Hash(), err
 }
+
+// EthBatchTx wraps SEVERAL signed Ethereum transactions of one sender into one cosmos transaction
+// (the envelope carries no signature of its own, so anybody who has the signed transactions can
+// build it).
+func EthBatchTx(evmChainID *big.Int, priv cryptotypes.PrivKey, list []EthTxArgs) ([]byte, error) {
+	var msgs []sdk.Msg
+	gas := uint64(0)
+	fee := new(big.Int)
+	signer := ethtypes.LatestSignerForChainID(evmChainID)
+	for _, a := range list {
+		args := &evmtypes.EvmTxArgs{ChainID: evmChainID, Nonce: a.Nonce, To: a.To, Amount: a.Value, GasLimit: a.GasLimit, Input: a.Data,
+			GasFeeCap: a.GasFeeCap, GasTipCap: a.GasTipCap, Accesses: &ethtypes.AccessList{}}
+		msg := evmtypes.NewTx(args)
+		msg.From = common.BytesToAddress(priv.PubKey().Address().Bytes()).Hex()
+		if err := msg.Sign(signer, testutiltx.NewSigner(priv)); err != nil {
+			return nil, err
+		}
+		msg.From = ""
+		msgs = append(msgs, msg)
+		gas += msg.GetGas()
+		fee.Add(fee, msg.GetFee())
+	}
+	cfg := TxConfig()
+	b := cfg.NewTxBuilder()
+	if err := b.SetMsgs(msgs...); err != nil {
+		return nil, err
+	}
+	opt, err := codectypes.NewAnyWithValue(&evmtypes.ExtensionOptionsEthereumTx{})
+	if err != nil {
+		return nil, err
+	}
+	eb, ok := b.(authtx.ExtensionOptionsTxBuilder)
+	if !ok {
+		return nil, fmt.Errorf("no extension builder")
+	}
+	eb.SetExtensionOptions(opt)
+	b.SetGasLimit(gas)
+	b.SetFeeAmount(sdk.Coins{sdk.NewCoin(utils.BaseDenom, sdkmath.NewIntFromBigInt(fee))})
+	return cfg.TxEncoder()(b.GetTx())
+}
